@@ -74,8 +74,12 @@ impl Copyright {
 
     /// Iter over all license paragraphs
     pub fn iter_licenses(&self) -> impl Iterator<Item = LicenseParagraph> {
+        // (the header paragraph may have a License field of its own: it
+        // states the licence of the work as a whole and is not a stand-alone
+        // licence paragraph)
         self.0
             .paragraphs()
+            .skip(1)
             .filter(|x| !x.contains_key("Files") && x.contains_key("License"))
             .map(LicenseParagraph)
     }
